@@ -27,7 +27,7 @@ def fp_substance(s):
 
 def fp_container(c):
     return ('C', c.name, tuple((fp_substance(s), float(a).hex()) for s, a in c.contents.items()),
-            float(c.volume).hex(), float(c.max_volume).hex(), c.instructions)
+            float(c.volume).hex(), float(c.max_volume).hex(), c.instructions, tuple(sorted(fp_substance(s) for s in c.get_substances())))
 
 
 def fp_plate(p):
@@ -71,7 +71,7 @@ def parts(o):
 def diff_fp(a, b):
     if a[0] != b[0]:
         return 'kind'
-    names = {'C': ['kind', 'name', 'contents', 'volume', 'max_volume', 'instructions'],
+    names = {'C': ['kind', 'name', 'contents', 'volume', 'max_volume', 'instructions', 'what get_substances() answers'],
              'P': ['kind', 'name', 'max_volume_per_well', 'row_names', 'column_names', 'n_rows', 'n_columns', 'shape', 'wells'],
              'L': ['kind', 'the plate it points at', 'the wells seen through it', 'item', 'slices'],
              'S': ['kind', 'name', 'type', 'mol_weight', 'density', 'concentration', 'specific_activity']}[a[0]]
@@ -213,6 +213,32 @@ class HImpl:
             return [res[o.name] for o in objs]
         raise KeyError(k)
 
+    def operands(self, op):
+        vs = [op[k] for k in ('s', 'd', 't', 'v', 'p', 'sv', 'src') if isinstance(op.get(k), int)]
+        return vs + [v for v in op.get('uses', []) if isinstance(v, int)]
+
+    def observe(self, objs):
+        from pyplate import Container, Plate
+        asked = set()
+        for o in objs:
+            try:
+                if isinstance(o, Container):
+                    o.get_substances(); o.get_volume(); asked |= {'get_substances', 'get_volume'}
+                    for s in self.subs.values():
+                        try:
+                            o.get_concentration(s); asked.add('get_concentration')
+                        except Exception:  # noqa
+                            pass
+                else:
+                    o.get_substances(); o.get_volumes(); asked |= {'get_substances', 'get_volumes'}
+                    for s in self.subs.values():
+                        o.get_moles(s); asked.add('get_moles')
+                    if isinstance(o, Plate):
+                        o.get_volumes(list(self.subs.values())[0])
+            except Exception:  # noqa
+                pass
+        return ', '.join(sorted(asked))
+
     def step(self, op):
         """returns (observation, property failures)"""
         before = self.watch.snapshot()
@@ -226,6 +252,13 @@ class HImpl:
             obs = {'ok': False, 'exc': common.exc_class(e), 'msg': str(e)[:120]}
         for t in self.watch.changed(before):
             fails.append(f"{op['op']} ({'returned' if obs['ok'] else 'raised ' + obs['exc']}): {t}")
+        if not fails:
+            # the read-only questions are public operations too: asked of the operands and results of this call (about every substance
+            # of the library, present or not), they leave every object as it was
+            mid = self.watch.snapshot()
+            asked = self.observe([self.vars[v] for v in self.operands(op) if v < len(self.vars)] + list(out))
+            for t in self.watch.changed(mid):
+                fails.append(f"read-only observers ({asked}) after {op['op']}: {t}")
         if obs['ok']:
             for j, o in enumerate(out):
                 if id(o) in old_parts:
